@@ -112,4 +112,19 @@ def commit_batch(ctx):
         if r.status == "holds" and not rt:
             r.status = "inconclusive"
             r.notes.append("anchor not found: Vec::retain on the live list")
+        elif r.status == "holds":
+            # the set the retain closure tests against must derive from the drained entries too
+            rtr = []
+            for ev in rt:
+                tr = E.trace(ev.args[1], ev.env, depth=24) if len(ev.args) > 1 else set()
+                rtr.append((ev, {strip(x) for x in tr}))
+            rtr.sort(key=lambda t: -len(t[1]))
+            fullr = rtr[0][1]
+            if not ("var:all_drained" in fullr or any("retire_uid_from_labels" in x for x in fullr)) or \
+                    ("var:drained_labels" not in fullr):
+                ev = rtr[0][0]
+                r.status = "violated"
+                r.witness = {"what": "the labels removed from the live segment list (Vec::retain) do not derive from the drained entries",
+                             "span": f"{ev.span[0]}:{ev.span[1]}" if ev.span else None, "call": ev.func[:120],
+                             "path": [], "model": {}, "trace": sorted(fullr)[:40]}
     return b.results
